@@ -320,3 +320,45 @@ def run_half(facts, rep, files=("src/util/rns.rs",), floor=0):
                 rep.unresolved(RH, key, "shifted modulus value with an unrecognised use", facts.loc(p, x))
     rep.floor(RH, "thresholds defined from a modulus value", n, floor)
     return n
+
+
+def run_negskip(facts, rep, files=("src/util/rns.rs",)):
+    """R-RESDOM(negskip) [N]: a multiplication by a precomputed scalar may be skipped when the scalar is 1 — a NEGATION may not.
+
+    The kernels that drop the last prime skip `x *= s` under `if s != 1` (multiplying by one is the identity).  A sign change
+    of the same operand (`negate*`) placed inside that branch — e.g. folded into the scalar as `negate(s)` — is skipped together
+    with the multiplication exactly when s == 1: the correction term then keeps the wrong sign for every parameter set with
+    q_last = 1 (mod t) (all power-of-two plain moduli up to 2N), and fresh public-key BGV encryptions decrypt to garbage."""
+    RN = "R-RESDOM(negskip)"
+    rep.rule(RN, "no negation of a residue operand is control-dependent on a `scalar != 1` identity shortcut")
+    n = 0
+    for p in sorted(facts.hir):
+        it = facts.items[p]
+        if it["file"] not in files or "::tests::" in p:
+            continue
+        body = facts.hir[p]
+        k = 0
+        for x in walk(body):
+            if x.get("k") != "If":
+                continue
+            c = strip(x["c"])
+            if not (c.get("k") == "Bin" and c.get("op") in ("!=", "==") and
+                    any(strip(s_).get("k") == "Lit" and str(strip(s_).get("v", "")).split("_")[0] == "1" for s_ in (c["a"], c["b"]))):
+                continue
+            branch = x["th"] if c["op"] == "!=" else x.get("el")
+            if branch is None:
+                continue
+            n += 1
+            rep.fn(p)
+            key = "%s/shortcut#%d" % (p, k)
+            k += 1
+            negs = [y for y in walk(branch) if y.get("k") in ("Call", "MCall") and
+                    "negate" in ((callee(y) or {}).get("name") or y.get("name") or "")]
+            if negs:
+                rep.violation(RN, key, "a negation (%s) sits inside the branch taken only when the scalar differs from 1: when the "
+                              "scalar IS 1 the multiplication is rightly skipped, but so is the sign change — the operand keeps the "
+                              "wrong sign for every parameter set where that precomputed inverse equals 1" %
+                              ((callee(negs[0]) or {}).get("name") or negs[0].get("name")), facts.loc(p, negs[0]))
+            else:
+                rep.ok(RN, key, "the identity shortcut skips a multiplication only", facts.loc(p, x), nontrivial=False)
+    return n
